@@ -14,7 +14,7 @@ from vmon.libutil import load_definition, monitored
 
 LEVEL = "exploration"
 SHARDS = {"quick": 16, "thorough": 16}
-MUST = ["abstract.capitalised_spelling", "nested.twice", "nested.diamond", "nested.shared", "root_override.generator_runs", "root_override.single_parses", "root_override.default_root_afterwards", "outcome.ok", "outcome.unrecognized", "unrec.abstract-dead-end", "unrec.ambiguous", "end.concrete-dead-end",
+MUST = ["abstract.capitalised_spelling", "trees.grouping_layer", "nested.embeds-root", "nested.twice", "nested.diamond", "nested.shared", "root_override.generator_runs", "root_override.single_parses", "root_override.default_root_afterwards", "outcome.ok", "outcome.unrecognized", "unrec.abstract-dead-end", "unrec.ambiguous", "end.concrete-dead-end",
         "end.leaf", "depth.>=2", "nested.expanded", "apid-name.other", "generator.error_objects", "trees.enumerated", "reparse.same_raw_object"]
 RULE = ("document = container tree; packet = header + steering fields + one byte per container on the path; the library's "
         "outcome (item names in order, values, header/user_data views, unrecognized+partial data, or normal end) must "
@@ -68,14 +68,14 @@ def subst(crit, apid_name):
     return tuple(ir.Comparison(apid_name if c.ref == "APIDNAME" else c.ref, c.value, c.op, c.calibrated) for c in crit)
 
 
-def tree_doc(parents, crits, abstracts, root_abstract, apid_name="PKT_APID", nested=False):
+def tree_doc(parents, crits, abstracts, root_abstract, apid_name="PKT_APID", nested=False, empty=()):
     """parents[i] in {-1 (root), 0..i-1}; container i is K{i} with one own byte X{i}"""
     ts, ps = header_types(apid_name)
     ts += [S1, S2, PAD]
     ps += [ir.Param("S1", "S1_Type"), ir.Param("S2", "S2_Type"), ir.Param("PAD", "PAD_Type")]
     conts = []
     root_entries = [("p", p.name) for p in ps[:7]] + [("p", "S1"), ("p", "S2"), ("p", "PAD")]
-    if nested:
+    if nested and nested != "embeds-root":
         ts.append(ir.PType("NB_Type", "integer", ir.IntEnc(8, "unsigned", False)))
         ps.append(ir.Param("NB", "NB_Type"))
         conts.append(ir.Container("NestedK", (("p", "NB"),)))
@@ -86,12 +86,16 @@ def tree_doc(parents, crits, abstracts, root_abstract, apid_name="PKT_APID", nes
             ps.append(ir.Param(n_, n_ + "_Type"))
         conts.append(ir.Container("NestedA", (("c", "NestedK"), ("p", "NA"))))
         conts.append(ir.Container("NestedB", (("c", "NestedK"), ("p", "NB2"))))
+    if nested == "embeds-root":
+        # a container listed BEFORE the root that embeds the root (and K0) through ContainerRefEntry: the root - a base container on
+        # every decode path - is first met as a forward reference while the document is loaded
+        conts.append(ir.Container("ArchiveRecord", (("c", "CCSDSPacket"),) + ((("c", "K0"),) if parents else ())))
     for i, (par, ci, ab) in enumerate(zip(parents, crits, abstracts)):
         tn = f"X{i}_Type"
         ts.append(ir.PType(tn, "integer", ir.IntEnc(8, "unsigned", False)))
         ps.append(ir.Param(f"X{i}", tn))
-        entries = [("p", f"X{i}")]
-        if nested and i == 0:
+        entries = [("p", f"X{i}")] if i not in empty else []      # empty: a pure grouping layer without entries of its own
+        if nested and nested != "embeds-root" and i == 0:
             entries = {"twice": [("c", "NestedK"), ("p", f"X{i}"), ("c", "NestedK")],      # the same reference twice in one entry list
                        "diamond": [("c", "NestedA"), ("c", "NestedB"), ("p", f"X{i}")]}.get(nested, [("c", "NestedK"), ("p", f"X{i}")])
         elif nested == "shared" and i == 1:
@@ -210,6 +214,11 @@ def run(ctx):
                         exercise(ctx, doc, f"k{k}/{parents}/{crits}/{abstracts}/{int(root_abs)}",
                                  apids=(100, 7) if 11 in crits else (100,), via_generator=(item % 9 == 0), sample=(item in (40, 700)))
                         ctx.count("trees.enumerated")
+                        if k == 2 and parents == (-1, 0) and abstracts[0]:
+                            # the same chain with K0 as a grouping layer: abstract, no entries of its own, a single inheritor
+                            doc = tree_doc(parents, crits, abstracts, root_abs, empty=(0,))
+                            exercise(ctx, doc, f"k{k}/{parents}/{crits}/{abstracts}/{int(root_abs)}/grouping-layer", apids=(100,))
+                            ctx.count("trees.grouping_layer")
     ctx.exhaustive_space("trees with <=2 non-root containers x 13 criteria x abstract flags x root abstract x 16 assignments", 1)
     # ---- 3 and 4 containers: sampled -------------------------------------------------------------------------------
     for k in (3, 4):
@@ -224,10 +233,11 @@ def run(ctx):
             apid_name = rng.choice(["PKT_APID", "PKT_APID", "APID", "ApplicationId"])
             if apid_name != "PKT_APID":
                 ctx.count("apid-name.other")
-            nested = rng.choice([False, False, False, True, True, "twice", "diamond", "shared"])
-            if nested in ("twice", "diamond", "shared"):
+            nested = rng.choice([False, False, False, True, True, "twice", "diamond", "shared", "embeds-root"])
+            if nested in ("twice", "diamond", "shared", "embeds-root"):
                 ctx.count(f"nested.{nested}")
-            doc = tree_doc(parents, crits, abstracts, rng.random() < 0.6, apid_name, nested=nested)
+            empty = tuple(i_ for i_ in range(k) if abstracts[i_] and rng.random() < 0.4) if not nested else ()
+            doc = tree_doc(parents, crits, abstracts, rng.random() < 0.6, apid_name, nested=nested, empty=empty)
             exercise(ctx, doc, f"k{k}/{parents}/{crits}/{abstracts}", apids=(100,), via_generator=(t % 7 == 0))
     # ---- header-name probe: abstract root, nothing matches, APID parameter not called PKT_APID -------------------------
     for apid_name in ("APID", "PKT_APID", "CCSDS_APID"):
